@@ -99,6 +99,7 @@ P = {
     "C10.a": "FQN.find_obj restricts candidate attributes to containment (excludes parent and reference attributes)",
     "C10.b": "_find_referenced_obj tries the referencing object first, then climbs parent only; textx_isinstance dominates the success return",
     "C10.c": "list-valued and scalar-valued descent branches agree (both test the name and return the match)",
+    "C10.d": "objects found by the FQN search are recognised by None-test, not by truth value",
   },
   declined="correctness for all trees and names",
   technique="containment-only descent rule (control dependence / comprehension filters) + sibling-branch agreement"),
@@ -106,6 +107,7 @@ P = {
   decided={
     "C11.a": "find_object_with_path acceptance table: Postponed returned as is; accepted iff no name part remains and (no class or textx_isinstance); alternatives iterated in stored order, first hit; ReferenceProxy iff use_proxy",
     "C11.b": "every node class built by RRELVisitor defines the interface the evaluator calls",
+    "C11.c": "objects found by a navigation step are recognised by None-test, not by truth value",
   },
   declined="soundness/completeness of the lazy search with the visited set over all expressions x models (the bulk of C11)",
   technique="decision-table extraction + interface-completeness check over the RREL node classes"),
@@ -152,6 +154,7 @@ P = {
     "C17.b": "load_model loads only when neither repository has the file, otherwise returns the cached model",
     "C17.c": "ImportURI lookup order: own model, local models, builtin models, first hit",
     "C17.d": "file keys are abspath-normalised on every store and lookup; synthetic keys are not looked up through a normalising API",
+    "C17.e": "ImportURI recognises an object found in the own / a loaded / a builtin model by None-test, so the documented lookup order is not skipped for falsy objects",
   },
   declined="identity of cross-file targets and file-open counts for arbitrary import graphs",
   technique="CFG dominance + decision table + key-normalisation dataflow"),
